@@ -58,6 +58,9 @@ operators = (
 
 
 def expand_operators(string_):
+    if len(string_) > model.PASTED_TEXT_LENGTH:
+        """ refused for its length anyway: not worth one pass over the text per operator in it """
+        return string_
     for operator in operators:
         while True:
             pos = string_.find(operator[0])
